@@ -2857,6 +2857,20 @@ func contractHistory(c *Ctx, id int) {
 	}
 
 	genLiquidity := func() {
+		// one call in ten is administrative (single-step actions at random points of the random stakes' lives): halt on / off,
+		// an unlock of a random token by the administrator or by somebody else
+		if c.R.Intn(10) == 0 && !r.liqAdmin.IsZero() && keyOf(r.liqAdmin) != nil {
+			tok := []types.ZenonTokenStandard{types.ZnnTokenStandard, types.QsrTokenStandard}[c.R.Intn(2)]
+			switch c.R.Intn(4) {
+			case 0:
+				call(r.liqAdmin, types.LiquidityContract, types.ZnnTokenStandard, zero, "SetIsHalted", definition.ABILiquidity.PackMethodPanic(definition.SetIsHaltedMethodName, c.R.Intn(2) == 0))
+			case 1:
+				call(r.liqAdmin, types.LiquidityContract, tok, zero, "UnlockLiquidityStakeEntries", definition.ABILiquidity.PackMethodPanic(definition.UnlockLiquidityStakeEntriesMethodName))
+			default:
+				call(pick(users), types.LiquidityContract, tok, zero, "UnlockLiquidityStakeEntries", definition.ABILiquidity.PackMethodPanic(definition.UnlockLiquidityStakeEntriesMethodName))
+			}
+			return
+		}
 		if c.R.Intn(100) < 45 {
 			from := pick(users)
 			tok := types.ZnnTokenStandard
